@@ -2,7 +2,7 @@
 """seedmatrix.py [<seed>...]: for every seeded change, applies it to a scratch
 worktree of /repo (never /repo itself), runs the quick check of its own property
 (plus any listed in meta.json "also") against that tree, and records the outcome in
-seeded/<name>/meta.json ("detected") and seeded/MATRIX.md. A seed whose own check
+seeded/<name>/detected.json and seeded/MATRIX.md. A seed whose own check
 exits 0 is reported as MISSED and the script exits 1."""
 import json
 import os
@@ -55,8 +55,7 @@ def main():
                                     "violation_line": "VIOLATION property=%s" % p in o.stdout,
                                     "wall_s": round(time.time() - t0, 1)}
                 print("%s :: %s rc=%d :: %s" % (name, p, o.returncode, line[:200]), flush=True)
-            meta["detected"] = det
-            json.dump(meta, open(os.path.join(d, "meta.json"), "w"), indent=1)
+            json.dump(det, open(os.path.join(d, "detected.json"), "w"), indent=1)
             own = det["checks"][name[:3]]
             if own["rc"] != 1 or not own["violation_line"]:
                 missed.append(name)
